@@ -181,7 +181,8 @@ def native_task(task):
     gname, cfg, values, tables, expect = task
     from . import api
     g = api.GROUPS[gname]
-    w = api.ConcreteWorld(cfg, values, tables)
+    sampled = isinstance(values, dict) and '__sample__' in values
+    w = api.SampleWorld(cfg, values['__sample__']) if sampled else api.ConcreteWorld(cfg, values, tables)
     res = {'failed': [], 'exception': None, 'skipped': False, 'details': {}}
     try:
         try:
@@ -208,6 +209,7 @@ def native_task(task):
             res['details'][n] = {k: str(v)[:300] for k, v in info.items()}
     res['observed'] = {k: str(v)[:300] for k, v in w.samples.items()}
     res['n_clauses'] = len(w.obligations)
+    if sampled: res['leaves'] = dict(w.leaves)
     return res
 
 
@@ -293,6 +295,14 @@ def run_property(prop, tier='quick', jobs=None, seed=0, only=None, write_baselin
             native_jobs.append(('replay', ri, fi, (r['group'], r['cfg'], f['values'], f['tables'], [f['clause']])))
         for ci, cjob in enumerate(r['cross']):
             native_jobs.append(('cross', ri, ci, (r['group'], r['cfg'], cjob['values'], cjob['tables'], cjob['expect'])))
+    # fall-back for configurations the symbolic engine could not execute on this tree (unsupported operation, path cap,
+    # wall-clock budget): native runs on sampled leaf values; only clauses discharged on the baseline tree can become
+    # violations this way (with the sampled input as replay), everything else leaves the engine error standing
+    n_samples = int(os.environ.get('VERIF_FALLBACK_SAMPLES', '24'))
+    for ri, r in enumerate(results):
+        if r['error'] and len(native_jobs) < 20000:
+            for k in range(n_samples):
+                native_jobs.append(('sample', ri, k, (r['group'], r['cfg'], {'__sample__': k}, {}, [])))
     native_out = []
     if native_jobs:
         with ctxm.Pool(min(jobs, len(native_jobs))) as pool:
@@ -320,6 +330,16 @@ def run_property(prop, tier='quick', jobs=None, seed=0, only=None, write_baselin
             continue
         r = results[ri]
         gname, cfgname = r['group'], r['cfg']['name']
+        if kind == 'sample':
+            if res['skipped']:
+                continue
+            for n in res['failed']:
+                ob = f'{gname}/{cfgname}/{n}'
+                if baseline.get(ob) == 'unsat' and not any(v['group'] == gname and v['cfg'] is r['cfg'] and v['clause'] == n for v in violations):
+                    violations.append({'group': gname, 'cfg': r['cfg'], 'clause': n, 'how': 'native-sample-after-engine-error',
+                                       'values': res.get('leaves', {}), 'tables': {}, 'native': res, 'replayed': True,
+                                       'info': dict(res['details'].get(n, {}), engine_error=str(r['error']).splitlines()[0][:200])})
+            continue
         if kind == 'replay':
             f = r['failures'][idx]
             f['native'] = res
